@@ -221,28 +221,37 @@ func rulesC11(c *Ctx) {
 				continue
 			}
 			bo, ok := ifi.Cond.(*ssa.BinOp)
-			if !ok || bo.Op != token.GTR {
+			if !ok {
 				continue
 			}
 			k, ok := bo.Y.(*ssa.Const)
 			if !ok || k.Value == nil {
 				continue
 			}
-			if n, _ := constant.Int64Val(constant.ToInt(k.Value)); n != 100 {
+			n, _ := constant.Int64Val(constant.ToInt(k.Value))
+			// the branch on which the value is known to be at most 100:
+			// `x > 100` false, `x >= 101` false, `x <= 100` true, `x < 101` true
+			var within *ssa.BasicBlock
+			switch {
+			case bo.Op == token.GTR && n == 100, bo.Op == token.GEQ && n == 101:
+				within = d.Succs[1]
+			case bo.Op == token.LEQ && n == 100, bo.Op == token.LSS && n == 101:
+				within = d.Succs[0]
+			default:
 				continue
 			}
 			x := bo.X
 			if viaLen {
 				if call, ok := x.(*ssa.Call); ok {
 					if bi, ok := call.Call.Value.(*ssa.Builtin); ok && bi.Name() == "len" && call.Call.Args[0] == v {
-						if d.Succs[1].Dominates(b) || d.Succs[1] == b {
+						if within.Dominates(b) || within == b {
 							return true
 						}
 					}
 				}
 				continue
 			}
-			if x == v && (d.Succs[1].Dominates(b) || d.Succs[1] == b) {
+			if x == v && (within.Dominates(b) || within == b) {
 				return true
 			}
 		}
